@@ -123,6 +123,9 @@ class SimFile(object):
         self.reads += 1
         if self.read_budget is not None and self.reads > self.read_budget:
             raise StepBudgetExceeded("%d read() calls on a %d-byte file" % (self.reads, len(self._buf)))
+        if n is not None and not -(1 << 63) <= n < (1 << 63):
+            # like a real file object: the count has to fit a C ssize_t
+            raise OverflowError("Python int too large to convert to C ssize_t")
         if n is None or n < 0:
             n = len(self._buf) - self._pos
         out = bytes(self._buf[self._pos : self._pos + n])
@@ -141,6 +144,9 @@ class SimFile(object):
 
     def seek(self, off, whence=0):
         self.seeks += 1
+        if not -(1 << 63) <= off < (1 << 63):
+            # like a real file object: the offset has to fit a C off_t
+            raise OverflowError("Python int too large to convert to C long")
         if whence == 0:
             self._pos = off
         elif whence == 1:
